@@ -366,6 +366,7 @@ def run(repo: Repo, ctx, grammar_modules=None, rule_prefix='C01',
     # ---- R11 clause order follows the grammar -----------------------------------
     clause_order_rule(repo, ctx, gen, 'C01.R11')
     identifier_field_rule(repo, ctx, gen, gm, 'C01.R12')
+    unnamed_object_separator_rule(repo, ctx, gen, 'C01.R13')
 
     # ---- R4 (shared with C18) --------------------------------------------------
     from . import c18
@@ -1253,3 +1254,90 @@ def identifier_field_rule(repo: Repo, ctx, gen, gm, rule: str) -> None:
                f'printed bare and the text is rejected or read differently',
                f'{f.module.rel()}:{raw[0] if raw else f.node.lineno}',
                sample=f'ident_to_str(node.{fld})')
+
+
+
+def _first_write(fn_node):
+    """(kind, text) of the first thing a local printing callback emits:
+    'space' (a literal that begins with white space, a block / newline
+    request), 'word' (a literal that begins with anything else), 'subtree'
+    (a visit), None when nothing is recognised"""
+    for st in fn_node.body:
+        for c in [x for x in ast.walk(st) if isinstance(x, ast.Call)]:
+            f = norm(c.func)
+            if f in ('self._block_ws',):
+                return 'space', f
+            if f in ('self.write', 'self._write_keywords') and c.args:
+                a = c.args[0]
+                if isinstance(a, ast.Constant) and isinstance(a.value, str):
+                    return ('space' if a.value[:1].isspace() else 'word',
+                            a.value)
+                if isinstance(a, ast.JoinedStr) and a.values and isinstance(
+                        a.values[0], ast.Constant):
+                    v = str(a.values[0].value)
+                    return ('space' if v[:1].isspace() else 'word', v)
+                return 'word', norm(a)[:30]
+            if f in ('self.visit', 'self.visit_list') or f.startswith(
+                    'self.visit_') or f.startswith('self._visit'):
+                return 'subtree', f
+        if isinstance(st, ast.Assign) and any(
+                norm(t) == 'self.new_lines' for t in st.targets):
+            return 'space', 'new_lines'
+    return None, ''
+
+
+def unnamed_object_separator_rule(repo, ctx, gen, rule):
+    """The DDL object helpers write `<VERB> <object keywords>`, then -- only
+    when the object is named -- a blank and the name, then whatever the
+    caller's `after_name` callback prints.  With `named=False` nothing
+    separates the last keyword from the callback's first output, so that
+    output has to begin with white space itself; otherwise the keyword and
+    the next token fuse (`alter castfrom std::str`, `index match
+    forstd::str`) and the printed text does not lex back into the same
+    tokens."""
+    ctx.floor(rule, 4)
+    n = 0
+    for name, f in sorted(gen.methods.items()):
+        for c in ast.walk(f.node):
+            if not (isinstance(c, ast.Call) and norm(c.func) in (
+                    'self._visit_CreateObject', 'self._visit_AlterObject',
+                    'self._visit_DropObject')):
+                continue
+            from ..model import kwarg
+            nk = kwarg(c, 'named')
+            an = kwarg(c, 'after_name')
+            if not (isinstance(nk, ast.Constant) and nk.value is False) \
+                    or an is None:
+                continue
+            cb = None
+            if isinstance(an, ast.Name):
+                for x in ast.walk(f.node):
+                    if isinstance(x, ast.FunctionDef) and x.name == an.id:
+                        cb = x
+            elif isinstance(an, ast.Lambda):
+                cb = ast.FunctionDef(name='<lambda>', args=an.args,
+                                     body=[ast.Expr(value=an.body)],
+                                     decorator_list=[])
+            if cb is None:
+                raise AnalysisError(f'{rule}: after_name callback of {name} '
+                                    f'not resolvable')
+            kind, what = _first_write(cb)
+            if kind is None:
+                raise AnalysisError(f'{rule}: first output of the '
+                                    f'after_name callback of {name} not '
+                                    f'recognised')
+            n += 1
+            ctx.saw(f)
+            kws = [a.value for a in c.args[1:]
+                   if isinstance(a, ast.Constant)]
+            ctx.ob(rule, f'{name}:separator-after-keywords', kind == 'space',
+                   f'{name} prints the object keywords {kws} with '
+                   f'named=False and its after_name callback starts with '
+                   f'{"the word " + repr(what) if kind == "word" else "a sub-tree (" + what + ")"}'
+                   f': nothing separates `{kws[-1] if kws else "?"}` from '
+                   f'what follows, the two fuse into one token and the '
+                   f'printed statement does not parse back',
+                   f'{f.module.rel()}:{c.lineno}',
+                   sample=f'{kws} + {kind}:{what[:20]}')
+    if n < 4:
+        raise AnalysisError(f'{rule}: only {n} unnamed DDL object visitors')
